@@ -11,7 +11,7 @@ import StorageModel.Base.Bytes
   reg   := "l" style ntypes type*            style: t f u i     type: c u d (sync) C U D (async)
          | "c" typed nveto (kind id)*        typed: t u (T U: vetoes with a RecordNotFoundError; o: typed, its vetoes
                                               apply only while the body runs for the first time)   kind: c u d
-  tx    := "tx" mode reuse nsteps step*      mode: u b          reuse: 0 1
+  tx    := "tx" mode reuse nsteps step*      mode: u b r (r: caller-managed bbolt transaction + NewTxMutateContext)   reuse: 0 1
   step  := "op" swallow fault op | "fail" tag | "fail1" tag (fails the first time the body executes it only) | "ac" tag | "ap" tag fails | "nb" | "nB" | "ne" | "sys"
            (nb / nB: nested Db.Update / Db.Batch with the bound context; sys: switch to the system context)
   fault := "-" | "lP"n | "lC"n | "pP"n | "pC"n
@@ -291,6 +291,7 @@ def txSpec : P TxSpec := fun ts => do
     let mode ← match m with
       | "u" => some Mode.update
       | "b" => some Mode.batch
+      | "r" => some Mode.raw
       | _ => none
     let (reuse, ts) ← flag ts
     let (body, ts) ← counted step ts
